@@ -1,4 +1,4 @@
 SPECIFICATION TraceSpec
-CONSTANT CrashMode = "atomic"
+CONSTANT CrashMode = "readable"
 POSTCONDITION TraceAccepted
 CHECK_DEADLOCK FALSE
